@@ -22,15 +22,27 @@ package tss
 //@ abstract
 
 // curve / encoding helpers: abstract (uninterpreted functions of their arguments)
+// left-padding with zero bytes up to the given length (longer inputs are returned unchanged)
 //@ func PaddingBytes
-//@ abstract
+//@ pure
+//@ ensures len(data) >= length ==> result == data
+//@ ensures len(data) < length ==> len(result) == length
+//@ ensures len(data) < length ==> (forall j :: 0 <= j && j < length - len(data) ==> result[j] == 0)
+//@ ensures len(data) < length ==> (forall j :: 0 <= j && j < len(data) ==> result[length - len(data) + j] == data[j])
 //@ func NewScalar
 //@ abstract
+// Ethereum-style address of a point: the last 20 bytes of keccak(X left-padded to 32 bytes || Y left-padded to 32 bytes)
+//@ spec hashXY(p Point) Bz = absfn("Hash", PaddingBytes(ext("big.Int.Bytes", ext("PublicKey.X", absfn("Point.publicKey", p))), 32), PaddingBytes(ext("big.Int.Bytes", ext("PublicKey.Y", absfn("Point.publicKey", p))), 32))
+//@ spec ethAddr(p Point) Bz = bzslice(hashXY(p), 12, len(hashXY(p)))
+//@ axiom hashLen: forall a Bz, b Bz :: len(absfn("Hash", a, b)) == 32
 //@ func (p Point) Address
-//@ abstract
+//@ ensures err == nil ==> result == ethAddr(p)
 //@ func (p Point) publicKey
 //@ abstract
 //@ func NewError
+//@ abstract
+// own public key = the accumulated commitment polynomial evaluated at the member id (curve arithmetic: abstract)
+//@ func ComputeOwnPublicKey
 //@ abstract
 
 // C03: the challenge is keccak over the fixed BAND-TSS preimage
@@ -39,8 +51,8 @@ package tss
 // clause pins which bytes are hashed, in which order, and that X(P) is padded to 32 bytes.)
 //@ func HashChallenge
 //@ ensures err == nil ==> result == absfn("NewScalar", absfn("Hash", bytes(ContextString), bzmk(0), bytes("challenge"), bzmk(0),
-//@        absfn("Point.Address", rawGroupPubNonce), bzmk(wrapu8(rawGroupPubKey[0] + 25)),
-//@        absfn("PaddingBytes", ext("big.Int.Bytes", ext("PublicKey.X", absfn("Point.publicKey", rawGroupPubKey))), 32),
+//@        ethAddr(rawGroupPubNonce), bzmk(wrapu8(rawGroupPubKey[0] + 25)),
+//@        PaddingBytes(ext("big.Int.Bytes", ext("PublicKey.X", absfn("Point.publicKey", rawGroupPubKey))), 32),
 //@        absfn("Hash", data)))
 // a byte string that parses as a public key is a compressed (33-byte) or uncompressed (65-byte) encoding
 //@ axiom pubKeyLen: forall p Point :: absfn("Point.publicKey#1", p) == nil ==> len(p) >= 33
